@@ -108,7 +108,7 @@ def handle : List String → String
       | c :: rest => match pVal rest with
         | some (.dict kvs, []) =>
           let fields := kvs.filterMap fun kv => match kv.1 with | .s k => some (k, kv.2) | .i _ => none
-          if fields.length = kvs.length then showAxis (axisFromDict tbl (axisToDict ⟨c, fields⟩)) else "bad-op"
+          if fields.length = kvs.length then showAxis (match axisToDict ⟨c, fields⟩ with | .ok d => axisFromDict tbl d | .error e => .error e) else "bad-op"
         | _ => "bad-op"
       | _ => "bad-op"
     else
@@ -125,7 +125,7 @@ def handle : List String → String
           -- metadata as from_zarr returns it: pack, encode, store, decode, `.copy()`, pops
           match v with
           | .dict md =>
-            match roundtrip (.dict (packMetadata md (.dict []) (.str "abTEM") (.str "Images") (.dict []))) with
+            match roundtrip (.dict (packMetadata md (.dict []) (.str "abTEM") (.str "Images") (.dict [(.s "sampling", .float "0.5"), (.s "metadata", .dict md)]))) with
             | .ok (.dict r) => s!"ok {showVal (.dict (unpackMetadata r))}"
             | .ok _ => "err:other_error"
             | .error e => s!"err:{e.name}"
